@@ -107,7 +107,7 @@ def _worker(args):
 
 def check(tier):
     ck = core.Check("C14", tier)
-    shards, n = (16, 200) if tier == "quick" else (64, 1600)
+    shards, n = (16, 500) if tier == "quick" else (64, 1600)
     res = core.pmap(_worker, [(ck.seed, i, n, "vf") for i in range(shards)])
     counters = sem.merge(ck, res)
     ck.cov["rule"] = ("random histories of 5-40 API calls over up to 3 live objects: create, set any flag, define "
